@@ -193,7 +193,11 @@ func (c *Ctx) rulesC04(a *coreAnchors, la *LockAnalysis) {
 	fQT := c.field(pm, "Mutation", "QueueTick")
 	if fQT != nil && la != nil {
 		n := 0
-		for _, w := range writesOfFieldIn(a.queueMutation, fQT) {
+		var qtW []fieldWrite
+		for _, hf := range c.hostedFns(a.queueMutation) {
+			qtW = append(qtW, writesOfFieldIn(hf, fQT)...)
+		}
+		for _, w := range qtW {
 			n++
 			lk := len(la.heldAt(w.Instr)) > 0
 			for _, hr := range la.heldAt(w.Instr) {
